@@ -5,6 +5,7 @@ import (
 	"go/ast"
 	"go/token"
 	"go/types"
+	"sort"
 
 	"golang.org/x/tools/go/ssa"
 )
@@ -252,6 +253,27 @@ func (vc *VC) localAt(li *loopInfo, name string, over map[*ssa.Phi]*Val, heap *H
 		}
 		if phi.Comment == name {
 			return vc.phiVal(phi, over)
+		}
+	}
+	// 1b. phi of an enclosing loop (the variable is not modified in this loop), innermost first
+	var encl []*loopInfo
+	for _, lo := range vc.loops {
+		if lo != li && lo.blocks[li.head] {
+			encl = append(encl, lo)
+		}
+	}
+	sort.Slice(encl, func(i, j int) bool { return len(encl[i].blocks) < len(encl[j].blocks) })
+	for _, lo := range encl {
+		for _, ins := range lo.head.Instrs {
+			phi, ok := ins.(*ssa.Phi)
+			if !ok {
+				break
+			}
+			if phi.Comment == name {
+				if v, ok := vc.vals[phi]; ok {
+					return v
+				}
+			}
 		}
 	}
 	// 2. the variable object in scope at the loop
